@@ -426,6 +426,7 @@ func (c *lossState) detectLoss(now time.Time, lossf func(numberSpace, *sentPacke
 // packet loss events, and it's simpler for the connection if loss events only
 // occur when advancing time.
 func (c *lossState) scheduleTimer(now time.Time) {
+	wasPTOTimer := c.ptoTimerArmed
 	c.ptoTimerArmed = false
 
 	// Loss timer for sent packets.
@@ -485,9 +486,11 @@ func (c *lossState) scheduleTimer(now time.Time) {
 		// The client must always set a PTO timer prior to receiving an ack for a
 		// handshake packet or the handshake being confirmed.
 		// https://www.rfc-editor.org/rfc/rfc9002.html#section-6.2.2.1
-		if !c.timer.IsZero() {
-			// If c.timer is non-zero here, we've already set the PTO timer and
+		if wasPTOTimer && !c.timer.IsZero() {
+			// If the PTO timer is already set, we
 			// should leave it as-is rather than moving it forward.
+			// (A non-zero c.timer may also be an expired or orphaned loss timer,
+			// which must not become the PTO deadline.)
 			c.ptoTimerArmed = true
 			return
 		}
